@@ -67,9 +67,15 @@ var civilCtor = ev.Register(&ev.P[civCase]{
 			}
 		}
 		if c.H == 0 && c.Mi == 0 && c.S == 0 {
-			got2, _ := accepted(func() { calendar.NewSolarFromYmd(c.Y, c.M, c.D) })
+			var s2 *calendar.Solar
+			got2, _ := accepted(func() { s2 = calendar.NewSolarFromYmd(c.Y, c.M, c.D) })
 			if got2 != ref.ValidDate(c.Y, c.M, c.D) {
 				return fmt.Errorf("NewSolarFromYmd(%d,%d,%d) accepted=%v, R-civil valid=%v", c.Y, c.M, c.D, got2, !got2)
+			}
+			if got2 {
+				if g := gen.FromSolar(s2); g != (ref.DT{Y: c.Y, M: c.M, D: c.D}) {
+					return fmt.Errorf("NewSolarFromYmd(%d,%d,%d) reports %v (the date-only form is midnight of the day given)", c.Y, c.M, c.D, g)
+				}
 			}
 		}
 		return nil
@@ -163,14 +169,27 @@ var lunarCtor = ev.Register(&ev.P[lunarYearCase]{
 				}
 				// the other constructors of the same triple (on a thinner grid: they share NewLunar)
 				if (d+m)%3 == 0 || want {
-					g1, _ := accepted(func() { calendar.NewLunarFromYmd(y, m, d) })
+					var lymd *calendar.Lunar
+					g1, _ := accepted(func() { lymd = calendar.NewLunarFromYmd(y, m, d) })
+					if g1 && (lymd.GetYear() != y || lymd.GetMonth() != m || lymd.GetDay() != d || lymd.GetHour() != 0 || lymd.GetMinute() != 0 || lymd.GetSecond() != 0 || lymd.GetSolar().GetHour() != 0 || lymd.GetSolar().GetSecond() != 0) {
+						return fmt.Errorf("NewLunarFromYmd(%d,%d,%d) reports %d/%d/%d %d:%d:%d", y, m, d, lymd.GetYear(), lymd.GetMonth(), lymd.GetDay(), lymd.GetHour(), lymd.GetMinute(), lymd.GetSecond())
+					}
 					g2, _ := accepted(func() { calendar.NewLunarTime(y, m, d, 23, 59, 59) })
 					var tao *calendar.Tao
 					var foto *calendar.Foto
 					g3, _ := accepted(func() { tao = calendar.NewTao(y+2697, m, d, 0, 0, 0) })
 					g4, _ := accepted(func() { foto = calendar.NewFoto(y+544, m, d, 0, 0, 0) })
-					g5, _ := accepted(func() { calendar.NewTaoFromYmd(y+2697, m, d) })
-					g6, _ := accepted(func() { calendar.NewFotoFromYmd(y+544, m, d) })
+					var tymd *calendar.Tao
+					var fymd *calendar.Foto
+					g5, _ := accepted(func() { tymd = calendar.NewTaoFromYmd(y+2697, m, d) })
+					g6, _ := accepted(func() { fymd = calendar.NewFotoFromYmd(y+544, m, d) })
+					if g5 && g6 {
+						for _, x := range []*calendar.Lunar{tymd.GetLunar(), fymd.GetLunar()} {
+							if x.GetYear() != y || x.GetMonth() != m || x.GetDay() != d || x.GetHour() != 0 || x.GetMinute() != 0 || x.GetSecond() != 0 {
+								return fmt.Errorf("NewTaoFromYmd/NewFotoFromYmd for lunar %d/%d/%d wrap %d/%d/%d %d:%d:%d", y, m, d, x.GetYear(), x.GetMonth(), x.GetDay(), x.GetHour(), x.GetMinute(), x.GetSecond())
+							}
+						}
+					}
 					if g1 != want || g2 != want || g3 != want || g4 != want || g5 != want || g6 != want {
 						return fmt.Errorf("lunar %d/%d/%d (in image: %v): NewLunarFromYmd=%v NewLunarTime=%v NewTao=%v NewFoto=%v NewTaoFromYmd=%v NewFotoFromYmd=%v", y, m, d, want, g1, g2, g3, g4, g5, g6)
 					}
@@ -361,7 +380,7 @@ var chains = ev.Register(&ev.P[chainCase]{
 				}
 			case "Workday":
 				n := o.N % 15
-				if !inRange(t.AddDays(3*n).Y) {
+				if !inRange(t.AddDays(3 * n).Y) {
 					continue
 				}
 				nx = cur.Next(n, true)
